@@ -102,7 +102,7 @@ class DryFilterIgnoredViolations:
         return True
 
 
-@contract(DRYII + "InlineIgnoreParser.clear", props=["C08"], types=dict(self=InlineParserT), modifies=["self._ignore_ranges"])
+@contract(DRYII + "InlineIgnoreParser.clear", props=["C08", "C12", "C13", "C19"], types=dict(self=InlineParserT), modifies=["self._ignore_ranges"])
 class InlineIgnoreClear:
     def ensures(self):
         return self._ignore_ranges == {}
@@ -139,7 +139,7 @@ def str_clean(r):
     return r._storage is None and not r._initialized and r._config is None
 
 
-@contract(DRY + "DRYRule.finalize", props=["C08"], types=dict(self=DRYRuleT, violations=Viols), returns=Viols, raises=["OSError"],
+@contract(DRY + "DRYRule.finalize", props=["C08", "C12", "C13", "C19"], types=dict(self=DRYRuleT, violations=Viols), returns=Viols, raises=["OSError"],
           modifies=["self._constants", "self._file_contents", "self._helpers.inline_ignore._ignore_ranges",
                     "self._helpers.constant_violation_builder.min_occurrences",
                     "self._storage", "self._file_analyzer", "self._config", "self._project_root", "self._initialized"])
@@ -161,7 +161,7 @@ class DryFinalize:
                        and self._file_contents == old.self._file_contents)
 
 
-@contract(STR + "StringlyTypedRule.finalize", props=["C08"], types=dict(self=StrRuleT, violations=Viols),
+@contract(STR + "StringlyTypedRule.finalize", props=["C08", "C12", "C13", "C19"], types=dict(self=StrRuleT, violations=Viols),
           returns=Viols, modifies=["self._storage", "self._config", "self._initialized"])
 class StringlyFinalize:
     def ensures_clean_after_finalize(self, old):
